@@ -51,7 +51,8 @@ impl Parse for Expr {
             // An argument ends where Rust's own grammar ends the expression. The tokens themselves
             // are handed on untouched.
             let fork = input.fork();
-            if fork.parse::<syn::Expr>().is_ok()
+            if is_moderately_nested(input.cursor())
+                && fork.parse::<syn::Expr>().is_ok()
                 && (fork.is_empty() || fork.peek(syn::token::Comma))
             {
                 let end = fork.cursor();
@@ -88,6 +89,38 @@ impl Parse for Expr {
             })
         }
     }
+}
+
+/// Checks that neither the groups nor the runs of (prefix) operators in the provided tokens nest
+/// deeper than a recursive descent parser can follow on a small stack.
+///
+/// `rustc` itself takes `((((..1000 more..))))` and `!!!!..true`; [`syn`]'s parser recurses once or
+/// more per level.
+fn is_moderately_nested(cursor: Cursor<'_>) -> bool {
+    const LIMIT: usize = 64;
+
+    let mut levels = vec![cursor];
+    let mut run = 0;
+    while let Some(cursor) = levels.pop() {
+        let Some((tt, next)) = cursor.token_tree() else {
+            continue;
+        };
+        levels.push(next);
+        match tt {
+            proc_macro2::TokenTree::Group(_) => {
+                if let Some((inside, _, _, _)) = cursor.any_group() {
+                    levels.push(inside);
+                }
+                run = 0;
+            }
+            proc_macro2::TokenTree::Punct(_) => run += 1,
+            _ => run = 0,
+        }
+        if levels.len() > LIMIT || run > LIMIT {
+            return false;
+        }
+    }
+    true
 }
 
 /// Turns the invisible groups holding an expression with operators (how `macro_rules!` passes
